@@ -8,23 +8,14 @@ namespace PV.C20
 
 /-! ### field names
 
-  The two field-name splitters differ only in what they take for an integer:
-  Rust `usize::from_str` accepts one leading `+` and values up to 2^64−1 (larger ones silently
-  become keywords / string indices); CPython accepts every Unicode decimal digit and *raises*
-  above 2^63−1.  The domain: no `+`, no non-ASCII decimal digit, every maximal run of ASCII
-  digits has a value ≤ 2^63−1. -/
+  Since 7cb5b4b the Rust field-name splitter reads integers as CPython's `get_integer` does (left to
+  right, "too many digits" above 2^63−1, no `+`), on ASCII digits.  CPython also accepts every other
+  Unicode decimal digit (`Py_UNICODE_TODECIMAL`); the domain excludes exactly those characters. -/
 
 def isAsciiDigit (c : Nat) : Bool := decide (48 ≤ c ∧ c ≤ 57)
 
-/-- `run` = value of the ASCII digits read since the last non-digit. -/
-def runsSmall : Nat → List Nat → Bool
-  | _, [] => true
-  | run, c :: rest =>
-    if isAsciiDigit c then
-      decide (run * 10 + (c - 48) ≤ 9223372036854775807) && runsSmall (run * 10 + (c - 48)) rest
-    else runsSmall 0 rest
-
+/-- no character of the text is a non-ASCII decimal digit -/
 def fieldNameInDomain (decVal : Nat → Option Nat) (t : List Nat) : Bool :=
-  t.all (fun c => c != 43 && (isAsciiDigit c || (decVal c).isNone)) && runsSmall 0 t
+  t.all (fun c => isAsciiDigit c || (decVal c).isNone)
 
 end PV.C20
